@@ -220,10 +220,11 @@ class RaggedArray:
     #  and self._indices and returning length increases
 
     def _append(self, array, fdv, fdi, vlen):
+        # the index row has to describe what is written, not what was passed
+        array = np.asarray(array, dtype=self.dtype)
         size = len(array)
         #endindex = self._values._memmap.shape[0]
-        vlenincr = self._values._append(np.asarray(array, dtype=self.dtype),
-                                        fdv)
+        vlenincr = self._values._append(array, fdv)
         ilenincr = self._indices._append([[vlen, vlen + size]], fdi)
         return (vlenincr, ilenincr)
 
